@@ -47,13 +47,29 @@ func (r *vrfLimRef) drop(box, id string) {
 	r.all = out
 }
 
+// vrfInternals folds the store's eviction cursors into the grouping hash (only to keep paths with
+// different internal cursors apart; no assertion looks at them).
+func vrfInternals(st interface{}, names []string) int {
+	s, ok := st.(*Store)
+	if !ok {
+		return 0
+	}
+	h := 0
+	for _, nm := range names {
+		if mb, ok := s.boxes[nm]; ok {
+			h = h*31 + mb.first*7 + mb.last
+		}
+	}
+	return h % 100003
+}
+
 func (r *vrfLimRef) shape(issued map[string]int, names []string) int {
 	h := 3
 	for _, nm := range names {
 		h = h*131 + issued[nm] + 1
 	}
 	for _, m := range r.all {
-		h = h*131 + int(m.id[0]-'0')*8 + len(m.box) + m.size%7
+		h = h*131 + int(m.id[0]-'0')*8 + len(m.box) + m.size
 		h = h % 1000003
 	}
 	return h
@@ -82,14 +98,16 @@ func VerifC08Limits(k int, mcap int, maxkb int) {
 	}
 	ref := &vrfLimRef{}
 	issued := map[string]int{}
+	enf := 0 // interactions with the size enforcer so far (keeps paths with different enforcer histories apart)
 	for step := 1; step <= k; step++ {
 		sfx := string(rune('0' + step))
+		before := len(ref.all)
 		op := 1 + vrf.Fork(vrf.Choose("op"+sfx, 3))
 		box := names[vrf.Fork(vrf.Choose("box"+sfx, len(names)))]
 		switch op {
 		case 0, 1: // deliver
 			size := vrfSizes[vrf.Fork(vrf.Choose("size"+sfx, len(vrfSizes)))]
-			src := make([]byte, size)
+			src := vrf.ZeroBytes(size)
 			id, aerr := st.AddMessage(&vrfIn{mailbox: box, subject: "s" + sfx, src: src})
 			vrf.Assert("add-noerr", aerr == nil)
 			issued[box]++
@@ -148,11 +166,12 @@ func VerifC08Limits(k int, mcap int, maxkb int) {
 		if limit > 0 {
 			vrf.Assert("size-limit-respected", total <= limit)
 		}
+		enf += 1 + before // coarse: differs whenever the number of messages handled differs
 		if step < k {
-			vrf.Regroup(ref.shape(issued, names))
+			vrf.Regroup((ref.shape(issued, names)*13+vrfInternals(st, names))*97 + enf%97)
 		}
 	}
-	vrf.Join()
+	// no Join here: the final states stay separate (their covers/assertions are grouped by label)
 	vrf.Cover("history-done")
 	_ = storage.ErrNotExist
 }
